@@ -7,3 +7,5 @@ val flat_map : ('a1 -> 'a2 list) -> 'a1 list -> 'a2 list
 val fold_left : ('a1 -> 'a2 -> 'a1) -> 'a2 list -> 'a1 -> 'a1
 
 val forallb : ('a1 -> bool) -> 'a1 list -> bool
+
+val combine : 'a1 list -> 'a2 list -> ('a1 * 'a2) list
